@@ -243,6 +243,8 @@ def proj_variant(t, v):
 
 def simplify_call(callee, args, site, resolver):
     """apply the transparent-callee rules"""
+    if callee == '<indirect>' and args and args[0][0] in ('closure', 'fn'):
+        return apply_fn(args[0], list(args[1:]), site)
     if callee == 'std::ops::Try::branch':
         return ('try', args[0])
     if callee == 'std::ops::FromResidual::from_residual':
